@@ -381,6 +381,31 @@ func jpegRun(p *Program, withICC bool) *parserRun {
 	return runParser(p, p.Func("meta/jpegmeta", "extractMetadata"), o)
 }
 
+// jpegRunDeep: the ICC-following exploration with room for two complete ICC
+// chunks on one path (each costs 12 identifier comparisons at one branch), so
+// that decisions depending on an EARLIER chunk (inconsistent totals, duplicates)
+// are reached.
+func jpegRunDeep(p *Program) *parserRun {
+	o := jpegOpts(p)
+	base := jpegRun // same pruning as the ICC run
+	_ = base
+	o.MaxForks = 30
+	o.MaxIter = 4
+	o.Prune = func(c *BoolVal) bool {
+		k := c.Key()
+		if c.Op == "==" && strings.Contains(k, ".Type(") {
+			if b, ok := c.B.(*Form); ok {
+				if cv, isC := b.ConstInt(); isC && ((cv > 0xc2 && cv <= 0xcf && cv != 0xc4 && cv != 0xc8 && cv != 0xcc) || cv == 0xc1) {
+					return true
+				}
+			}
+		}
+		return c.Op == "!=" && strings.HasPrefix(k, "(1*index(.Data(") && !strings.Contains(k, "make#") && strings.Count(k, "index(") == 1 && !strings.HasSuffix(k, " != 0)")
+	}
+	o.MaxPaths = 60000
+	return runParser(p, p.Func("meta/jpegmeta", "extractMetadata"), o)
+}
+
 // segIndexAtom decodes index(.Data(call:...ReadSegment@k#0(sr)), i) → (k, i).
 func segDataRef(e *Engine, atom string) (seg int, idx int64, ok bool) {
 	at := e.A.get(atom)
@@ -692,7 +717,7 @@ func checkLoadPassThrough(p *Program, r *Report) {
 // A path that gives up after an APPn/other segment (whatever its content)
 // loses the dimensions of a well-formed file whose SOF comes later.
 func checkJpegScanOn(p *Program, r *Report, pos string) {
-	pr := jpegRun(p, true)
+	pr := jpegRunDeep(p)
 	if len(pr.Stuck) > 0 {
 		r.Undecide("C05.dispatch", "jpeg scan reaches SOF", p.Pos(pr.Stuck[0].Pos), "parser not extractable: "+pr.Stuck[0].Why)
 		return
